@@ -51,7 +51,14 @@ def load_units():
     for fn in sorted(os.listdir(VERUS_DIR)):
         if not fn.endswith(".rs") or fn.startswith("_"):
             continue
-        first = open(os.path.join(VERUS_DIR, fn)).readline()
+        lines_ = open(os.path.join(VERUS_DIR, fn)).read().split("\n")
+        first = lines_[0]
+        doc_ = []
+        for l_ in lines_[1:12]:
+            if l_.startswith("//") and not l_.startswith("//@"):
+                doc_.append(l_[2:].strip())
+            else:
+                break
         m = re.match(r'^\s*//@ unit\s+(.*)$', first)
         if not m:
             continue
@@ -65,7 +72,7 @@ def load_units():
             "funcs": [f.strip() for f in kv.get("funcs", "").split(";") if f.strip()],
             "bound": kv.get("bound", ""), "stubs": [f.strip() for f in kv.get("stubs", "").split(";") if f.strip()],
             "havoc": False, "replay": False, "note": kv.get("note", ""), "finding": kv.get("finding", ""),
-            "contract_of": "",
+            "contract_of": "", "contract_text": " ".join(doc_)[:700],
         })
     return units
 
